@@ -343,7 +343,7 @@ func c13Run(c *hx.Ctx, tier, unit string) {
 			return
 		}
 		if parts[0] == "blob-edits" {
-			edits := append([]p7Edit{{"untouched seed", s.Blob}}, p7Edits(*s)...)
+			edits := append([]p7Edit{{Name: "untouched seed", Blob: s.Blob}}, p7Edits(*s)...)
 			for _, e := range edits {
 				for ei, en := range c13BlobEntries {
 					b := e.Blob
